@@ -96,8 +96,9 @@ type PoolOptions struct {
 	Strict   bool  // also record whether each input passes strict validation (Input.StrictOK)
 	// Sparse: pdfgen documents with numbering extremes (pdfgen.ModerateNumberingKinds in rotation: strided
 	// numbers, objects >= 65536, generations > 0, free entries at high numbers, /Size >> object count).
-	// SparseHuge: documents with an object or a free entry >= 2^24 (pdfcpu needs 10-200 CPU seconds and
-	// several hundred MB per write of such a document). Both kinds are only used by SparsePlans, never by Plans.
+	// SparseHuge: documents with an object or a free entry >= 2^24 (pdfcpu refuses them unless
+	// Configuration.Limits.MaxObjectCount is raised, and then needs 10-200 CPU seconds and several hundred MB per
+	// write of such a document). Both kinds are only used by SparsePlans, never by Plans.
 	Sparse, SparseHuge int
 }
 
@@ -277,12 +278,8 @@ func GenSparse(rng *rand.Rand, i int, kind pdfgen.NumberingKind) (*Input, []byte
 		spec.Pages = 8 + rng.IntN(4) // the fixed parameters of the catalogue address pages 1..8
 	}
 	spec.Write.Version = "1.7"
-	if kind.Huge() {
-		// pdfcpu refuses a cross-reference STREAM whose /Size exceeds its resource limit MaxObjectCount (10 million)
-		// and then reconstructs the table by scanning, which loses compressed objects: numbers >= 2^24 only reach it
-		// through a classic table
-		spec.Write.XRef, spec.Write.ObjStm = pdfgen.XRefTable, false
-	}
+	// kind.Huge(): pdfcpu refuses object numbers and cross-reference stream /Size values above
+	// Configuration.Limits.MaxObjectCount (default 10 million); the caller has to raise it for these inputs
 	bt, plan, err := pdfgen.BuildSparse(spec, rng, kind)
 	if err != nil {
 		return nil, nil
